@@ -21,6 +21,9 @@
 //                              FLU1 = format(..).sendToFile(p0)          (handlers: formatter, sink)
 //                              FLUP = format(..).sendToFile(p0).pipeline().filterLevel(QtWarningMsg)   (formatter, sink, (filter))
 //              the k-th file sink in depth-first order writes <dir>/s<k>.log
+//              | k RotatingFileSink(1000 bytes, keeps 3 files: retention, files not checked) | K RotatingFileSink(1000 bytes, keeps
+//                everything) on <dir>/ws<j>.log, j = number of the last k sink (of the next sink when there is none yet): two rotating sinks in one directory, the name
+//                of one ending with the name of the other; the retention of k must not touch the files of K
 //              | q RotatingFileSink(limit 1000 bytes: rotates often) | Q the same, with a directory occupying the
 //                name of today's first rotated file (the rename fails, the sink goes on appending)
 //              front-ends ONEQ = configure(path, 1000, 0, None, false) with the blocked rotation name;
@@ -109,6 +112,7 @@ static void emit_msg(int, const Msg &m)
 }
 static QString g_dir;
 static int g_nsink = 0;
+static int g_lastk = -1; // number of the last k sink (retention); a K sink is named after it
 static int g_ntmp = 0;   // records logged through temporary Logger objects (& items)
 static const int big = 1 << 30;
 static QString next_path() { return g_dir + QStringLiteral("/s%1.log").arg(g_nsink++); }
@@ -151,6 +155,16 @@ static bool build_into(Pipeline *root, const std::string &tree)
         case 'q': cur->append(RotatingFileSinkPtr::create(path(), 1000, 0)); break;                // rotates every 1000 bytes
         case 'Q': block_rotation(nsink); cur->append(RotatingFileSinkPtr::create(path(), 1000, 0)); break; // ... and its first rename fails
         case 'D': cur->append(RotatingFileSinkPtr::create(path(), 0, 0, RotatingFileSink::RotationDaily)); break;
+        case 'k': // rotates every 1000 bytes and KEEPS ONLY 3 files (retention: what it drops is lost by design, its files are not checked)
+            g_lastk = nsink;
+            cur->append(RotatingFileSinkPtr::create(path(), 1000, 3));
+            break;
+        case 'K': { // rotates every 1000 bytes, keeps everything; its file name ENDS with the name of the last k sink: ws<j>.log
+            const int j = g_lastk >= 0 ? g_lastk : nsink + 1;   // no k sink yet: named after the NEXT sink
+            nsink++;
+            cur->append(RotatingFileSinkPtr::create(g_dir + QStringLiteral("/ws%1.log").arg(j), 1000, 0));
+            break;
+        }
         case 'N': { // a null entry: append(initializer_list) and Pipeline({..}) accept it, process() skips it
             std::initializer_list<HandlerPtr> il = { HandlerPtr() };
             cur->append(il);
